@@ -24,7 +24,8 @@ import (
 type Spec struct {
 	Tree     h.Tree  `json:"tree,omitempty"`
 	Many     int     `json:"many,omitempty"`     // >0: Many dirs + Many small files + 2 multi-block files instead of Tree
-	ManyDmg  string  `json:"many_dmg,omitempty"` // none | all-gone | all-files-flipped | last-file | dirs-gone
+	ManyDmg  string  `json:"many_dmg,omitempty"` // none | all-gone | all-files-flipped | last-file | dirs-gone | big-first-block
+	BigMiB   int     `json:"big_mib,omitempty"`  // >0: one file of that many MiB (> 1024 blocks) followed by a small one, instead of Tree
 	Damages  []h.Dmg `json:"damages,omitempty"`
 	Consumer string  `json:"consumer"`            // failfast | woundsfile | woundsfile-unwritable | heal | heal-partial | heal-missing | printer
 	CancelAt int     `json:"cancel_at"`           // -1 never, 0 before start, n>0 inside the n-th consumer callback
@@ -71,6 +72,13 @@ func check(s Spec) h.Result {
 	if s.Many > 0 {
 		tree = manyTree(s.Many)
 	}
+	if s.BigMiB > 0 {
+		// more blocks in one file than the wound channel has slots; not the last file
+		tree = h.Tree{
+			{Path: "a-big", Kind: h.KFile, C: h.Content{{Src: 0, Len: s.BigMiB << 20}}},
+			{Path: "z-small", Kind: h.KFile, C: h.Content{{Src: 1, Len: 1000}}},
+		}
+	}
 	ref, work := filepath.Join(d, "ref"), filepath.Join(d, "work")
 	if err := tree.Write(ref); err != nil {
 		return h.Result{Skip: "cannot write tree"}
@@ -84,7 +92,12 @@ func check(s Spec) h.Result {
 		return h.Result{Skip: "cannot write work copy"}
 	}
 	cl := []string{"consumer:" + s.Consumer}
-	if s.Many > 0 {
+	if s.BigMiB > 0 {
+		cl = append(cl, "tree:file->1024-blocks", "many-damage:"+s.ManyDmg)
+		if s.ManyDmg == "big-first-block" {
+			h.ApplyDmg(work, h.Dmg{Path: "a-big", Op: "flip", Off: 5})
+		}
+	} else if s.Many > 0 {
 		cl = append(cl, "tree:>1024-entries", "many-damage:"+s.ManyDmg)
 		switch s.ManyDmg {
 		case "all-gone":
@@ -174,6 +187,9 @@ func check(s Spec) h.Result {
 	tick := func() {
 		if s.CancelAt > 0 && atomic.AddInt64(&calls, 1) == int64(s.CancelAt) {
 			cancel()
+			// give the other goroutines time to notice before the caller of this
+			// callback goes on: cancellation lands "between two steps" of the caller
+			time.Sleep(time.Millisecond)
 		}
 	}
 	vctx.Consumer = &state.Consumer{
@@ -213,7 +229,7 @@ func check(s Spec) h.Result {
 		cl = append(cl, "outcome:nil")
 	}
 	extra := map[string]int{}
-	if s.CancelAt%7 == 3 || s.Many > 0 {
+	if s.CancelAt%7 == 3 || s.Many > 0 || s.BigMiB > 0 {
 		// sampled observation, reported in the evidence and not judged: goroutines
 		// still inside wharf/pwr a little after Validate returned
 		cancel()
@@ -274,14 +290,19 @@ var propMany = h.Prop[Spec]{
 	ID: "C16", Name: "manywounds",
 	Gen: func(t *rapid.T) Spec {
 		s := Spec{Consumer: rapid.SampledFrom(consumers).Draw(t, "consumer")}
-		s.Many = rapid.SampledFrom([]int{1100, 1300, 2100}).Draw(t, "many")
-		s.ManyDmg = rapid.SampledFrom([]string{"none", "all-gone", "dirs-gone", "all-files-flipped", "last-file"}).Draw(t, "many-dmg")
+		if rapid.IntRange(0, 2).Draw(t, "big-file") == 0 {
+			s.BigMiB = rapid.SampledFrom([]int{66, 80, 96}).Draw(t, "big-mib")
+			s.ManyDmg = rapid.SampledFrom([]string{"big-first-block", "big-first-block", "none"}).Draw(t, "big-dmg")
+		} else {
+			s.Many = rapid.SampledFrom([]int{1100, 1300, 2100}).Draw(t, "many")
+			s.ManyDmg = rapid.SampledFrom([]string{"none", "all-gone", "dirs-gone", "all-files-flipped", "last-file"}).Draw(t, "many-dmg")
+		}
 		genCancel(t, &s)
 		s.Procs = rapid.SampledFrom([]int{1, 2, 16}).Draw(t, "gomaxprocs")
 		return s
 	},
 	Check:    check,
-	Watchdog: 120 * time.Second,
+	Watchdog: 90 * time.Second,
 }
 
 func TestProp(t *testing.T) { h.Run(t, prop) }
